@@ -30,6 +30,15 @@ struct ArrOut : public google::protobuf::io::ZeroCopyOutputStream {
   void BackUp(int count) override { pos -= count; }
   int64_t ByteCount() const override { return pos; }
 };
+// a ZeroCopyInputStream handing out the bytes in chunks of `chunk` (the stream-backed presentation of an input)
+struct ArrIn : public google::protobuf::io::ZeroCopyInputStream {
+  const uint8_t* data; int size; int chunk; int pos {0}; int last {0};
+  ArrIn(const uint8_t* d, int n, int c) : data(d), size(n), chunk(c) {}
+  bool Next(const void** d, int* n) override { if (pos >= size) { last = 0; return false; } int k = size - pos < chunk ? size - pos : chunk; *d = data + pos; *n = k; pos += k; last = k; return true; }
+  void BackUp(int count) override { pos -= count; last = 0; }
+  bool Skip(int count) override { last = 0; if (count > size - pos) { pos = size; return false; } pos += count; return true; }
+  int64_t ByteCount() const override { return pos; }
+};
 #ifndef VF_INLEN
 #define VF_INLEN 6
 #endif
@@ -81,6 +90,18 @@ extern "C" void vf_thread_0() {
   Agg y; y.a = 0; y.b = 0; y.c = false; y.in.u = 0; y.in.s = 0;       // a fresh object
   { CodedInputStream is(out, n); bool ok = Serialization::parse_from_coded_stream(is, y); vf_check(ok, 4); }
   vf_check(same(x, y), 4);                                                   // round trip (absent fields read back as defaults)
+#ifdef VF_STREAM
+  // the same bytes presented through a ZeroCopyInputStream in chunks of 1..VF_STREAM bytes (symbolic), without and with an
+  // enclosing limit: every presentation of the same bytes parses to the same value
+  uint64_t chunk = vf_nondet64(); vf_assume(chunk >= 1 && chunk <= VF_STREAM);
+  uint64_t limited = vf_nondet64() & 1;
+  Agg z; z.a = 0; z.b = 0; z.c = false; z.in.u = 0; z.in.s = 0;
+  { ArrIn ai(out, n, (int)chunk); CodedInputStream is(&ai);
+    CodedInputStream::Limit lim = 0; if (limited) lim = is.PushLimit(n);
+    bool ok = Serialization::parse_from_coded_stream(is, z); vf_check(ok, 8);
+    if (limited) is.PopLimit(lim); }
+  vf_check(same(x, z), 8);
+#endif
 }
 #else
 extern "C" void vf_thread_0() {
